@@ -4,6 +4,7 @@ import LitexProofs.Axi.LiteCrossbarData
 import LitexProofs.Axi.LiteTimeout
 import LitexProofs.Axi.LiteClosed
 import LitexModel.Axi.LiteSoc
+import LitexProofs.Wishbone.InterconnectSoc
 /-
   C08 — AXI-Lite (and AXI) interconnect keeps grants and routes until every response has returned.
 
@@ -44,13 +45,13 @@ import LitexModel.Axi.LiteSoc
   class / function (Lite | AXI4 twin)               model                               theorems                                     tie
   ------------------------------------------------- ----------------------------------- -------------------------------------------- ---------------------------
   _AXILiteRequestCounter | _AXIRequestCounter       ctrNext, ctrEmpty (8 bit, saturates  axl_counter_inv, axl_counter_bounded,        P exhaustive (256 x 2 x 2, both
-                                                     at 255, `stall` unused as coded)     axl_counter_saturates(_run), saturation      classes) + 258-deep lock-step
+                                                     at 255, `stall` unused as coded)     axl_counter_saturates, saturation            classes) + 258-deep lock-step
                                                                                           witnesses (fabric level)                     runs inside 3 fabrics
   AXILiteArbiter | AXIArbiter                       Arb / ArbFabric (+ RoundRobin .ce)   axl_grant_frozen, axl_eventually_served,     A n = 1..3 w/r (exhaustive), B 3->1
                                                                                           axl_served_within, axl_crossbar_composition  32 bit; RoundRobin P exhaustive n<=4
   AXILiteDecoder | AXIDecoder                       Dec / DecFabric                      lock part of axl_lock_held_*, negative       A m = 1..3, 2 maps, w/r; B 1->3
                                                                                           witnesses 1 + 2 (the two open findings)      regions 32 bit
-  AXILiteInterconnectPointToPoint | AXI…PointToPoint P2P (wiring = connect_axi)          axl_p2p_transparent, axl_soc_p2p_*           A joint (Lite + AXI4), B 32 bit
+  AXILiteInterconnectPointToPoint | AXI…PointToPoint P2P (wiring = connect_axi)          axl_p2p_transparent, witness `socP`          A joint (Lite + AXI4), B 32 bit
   AXILiteInterconnectShared | AXIInterconnectShared Shared (timeout None), SharedT       axl_route(_data)_partial, axl_lock_held_,    A 1x2 2x1 2x2 (3x2 2x3 3x3 thorough,
     (adr/id width = max over masters)                (finite timeout_cycles, with         axl_counter_inv_shared, axl_id_preserved,    sampled), joint w x r; B 3x3 2x3 4x2
                                                      b-c11's AXI(Lite)Timeout FSM)        axl_timeout_transparent_partial,             16..128 bit, id_width 4, unequal
@@ -65,12 +66,13 @@ import LitexModel.Axi.LiteSoc
     connect_axi (axi_common.py)                      signals the models carry as aValid/                                               driven and compared at port level
                                                      aAddr/aPay/dValid/dPay/rReady, …                                                  (widths checked against the
                                                      (`*Pay` = all pass-through fields)                                                constructor arguments)
-  r.last-qualified read release (AXI4), w.last      `gated` (= full && rd), `c.wlast`    axl_read_burst_holds_lock, data theorems     A (AXI4 read letters carry last),
-                                                                                                                                       B bursts 1..4 beats
+  r.last-qualified read release (AXI4), w.last      `gated` (= full && rd), `c.wlast`    axl_read_burst_holds_lock, axl_read_burst_    A (AXI4 read letters carry last),
+                                                                                          beat_keeps_entry, data theorems              B bursts 1..4 beats
   id / dest / user / first / last side-bands        packed in `*Pay` at full width       axl_id_preserved(_run)                       B id_width 4 (after fix 1eff3cf)
   SoCBusHandler.do_finalize (soc.py; standard       SocAxi.fabric / SocAxi.cfg over      axl_soc_fabric_p2p_iff, axl_soc_fabric_      P fabric class vs SocAxi.fabric,
     "axi-lite" / "axi": P2P / Shared / Crossbar,     b-c06's busTopology (shared model    decoded, axl_soc_closed_route,               B through real SoCBusHandlers
-    SoCRegion.decoder, timeout, register)            of the one do_finalize statement)    axl_soc_p2p_ignores_region (witness)         (`open socaxi`, model picks the fabric)
+    SoCRegion.decoder, timeout, register)            of the one do_finalize statement)    axl_soc_accepted_disjoint_partial,           (`open socaxi`, model picks the fabric)
+                                                                                          axl_soc_end_to_end_partial, witness `socP`
   legal AXI master / slave (environment)            LocalOK / LocalAll (port-local)      axl_closed_* (EnvOK DERIVED, not assumed)    `open localmon`: the harness's AXI-
                                                                                                                                        legal environments satisfy LocalOK in
                                                                                                                                        every cycle; finding witnesses do not
@@ -431,6 +433,20 @@ theorem axl_read_burst_holds_lock (c : Cfg) (hf : c.full = true) (g : Fifo) (x :
     (hl : (x.ss j).rLast = false) (hq : sReq x o j = false) : fifoNext c true g x o j = g j := by
   simp [fifoNext, sDone, Cfg.gated, hf, hl, hq]
 
+/-- **`axl_read_burst_beat_keeps_entry`** — … and with an AXI-legal slave (it answers only a request it holds) the
+    burst's scoreboard entry is still there, still the oldest, after every beat without `last`: the following beats of
+    the burst go to the same issuer (`RouteOK.resp_s` reads the head) and the lock theorems keep applying (`g j ≠ []`)
+    until the beat that carries `last`.  Multi-beat R bursts of any length. -/
+theorem axl_read_burst_beat_keeps_entry (c : Cfg) (hf : c.full = true) (g : Fifo) (x : DirIn) (o : DirOut) (j : Nat)
+    (hj : j < c.m) (env : EnvOK c g x) (hv : (x.ss j).rValid = true) (hl : (x.ss j).rLast = false) :
+    fifoNext c true g x o j ≠ [] ∧ (fifoNext c true g x o j).head? = (g j).head? := by
+  have hne := env.slaveLegal j hj hv
+  have hd : sDone (c.gated true) x o j = false := by simp [sDone, Cfg.gated, hf, hl]
+  simp only [fifoNext, hd]
+  cases hg : g j with
+  | nil => exact absurd hg hne
+  | cons a t => simp
+
 /-! ## Counter width and saturation (`Signal(max=256)`, `full = counter == 255`, `stall` computed and unused) -/
 
 /-- **`axl_counter_bounded`** — the 8-bit register never wraps: from a value ≤ 255 every event sequence keeps it ≤ 255. -/
@@ -591,6 +607,61 @@ theorem axl_soc_closed_route (c : SocAxi) (rd : Bool) (hn : c.n ≠ 0) (hd : Dis
   ⟨fun _ h => (axl_closed_shared c.cfg rd hd (Nat.pos_of_ne_zero hn) ins h).2,
    fun _ h => (axl_closed_crossbar c.cfg rd hd (Nat.pos_of_ne_zero hn) ins h).2⟩
 
+/- Full statement (does not hold, witnesses in LitexProps/C06.lean / C13.lean): every region list accepted by
+   `check_regions_overlap` gives disjoint decoders.  `_partial`: `RegionsDecodable` (b-c06 / b-c13: no slave on a linker
+   region — the check skips those —, `decode=True`, origin aligned on `size_pow2`, window of at least one bus word). -/
+
+/-- **`axl_soc_accepted_disjoint_partial`** — the `Disjoint` hypothesis of every routing theorem above is DISCHARGED for
+    the decoders `do_finalize` hands to the AXI(-Lite) interconnect, for every slave-region list that
+    `SoCBusHandler.check_regions_overlap` accepts (b-c06's `checkRegionsOverlap` = the check as computed, b-c13's
+    `accepted_regions_pairwise_disjoint_decoders`, imported read-only). -/
+theorem axl_soc_accepted_disjoint_partial (c : SocAxi) (rs : List Soc.Region) (sh : Nat)
+    (hr : c.regions = Wishbone.pairsOf rs) (hdw : c.dw / 8 = 2 ^ sh) (hsh : sh ≤ c.aw)
+    (hacc : Wishbone.checkRegionsOverlap false rs = none) (hall : Wishbone.RegionsDecodable c.dw rs) :
+    Disjoint c.cfg := by
+  intro a j k hj hk h1 h2
+  have hm : c.cfg.m = rs.length := by simp [SocAxi.cfg, SocAxi.m, hr, Wishbone.pairsOf]
+  have hlog : Nat.log2 (c.dw / 8) = sh := by rw [hdw]; exact Nat.log2_two_pow
+  have key : ∀ j (hj : j < rs.length),
+      Wishbone.decOfSpecs c.dw c.aw (c.regions.map fun p => Wishbone.DecSpec.region p.1 p.2) j a =
+        Soc.decoderAccepts c.aw c.dw rs[j] a := by
+    intro j hj
+    have hd := (hall _ (List.getElem_mem hj)).2.1
+    have hget : (c.regions.map fun p => Wishbone.DecSpec.region p.1 p.2)[j]? =
+        some (Wishbone.DecSpec.region rs[j].origin rs[j].size) := by
+      rw [hr, Wishbone.pairsOf, List.map_map, List.getElem?_map, List.getElem?_eq_getElem hj]; rfl
+    unfold Wishbone.decOfSpecs
+    rw [hget]
+    show Wishbone.regionDec _ _ _ _ _ = _
+    rw [Wishbone.regionDec_eq_decoderAccepts _ _ _ _ _ rs[j].cached rs[j].linker]
+    have : (⟨rs[j].origin, rs[j].size, rs[j].cached, rs[j].linker, true⟩ : Soc.Region) = rs[j] := by
+      cases hrj : rs[j] with
+      | mk o s c l d => rw [hrj] at hd; simp at hd; subst hd; rfl
+    rw [this]
+  rw [hm] at hj hk
+  simp only [SocAxi.cfg, Bool.and_eq_true, decide_eq_true_eq] at h1 h2
+  rw [key j hj] at h1
+  rw [key k hk] at h2
+  exact Wishbone.accepted_index_disjoint c.aw c.dw sh rs hdw hsh hacc hall a (by rw [← hlog]; exact h1.1) j k hj hk
+    h1.2 h2.2
+
+/-- **`axl_soc_end_to_end_partial`** — the whole chain: masters and slaves registered on a `SoCBusHandler` of standard
+    axi-lite / axi, slave regions accepted by `check_regions_overlap`, not the one-master-one-slave-at-0 case, legal
+    masters and slaves (local rules) ⇒ the interconnect `do_finalize` instantiates (`SocAxi.fabric`: shared without
+    timeout or crossbar; with a timeout see `axl_timeout_transparent_partial`) delivers every accepted address to the
+    slave of the region it lies in and every response exactly once to its issuer, in every cycle of every schedule. -/
+theorem axl_soc_end_to_end_partial (c : SocAxi) (rd : Bool) (rs : List Soc.Region) (sh : Nat) (hn : c.n ≠ 0)
+    (hr : c.regions = Wishbone.pairsOf rs) (hdw : c.dw / 8 = 2 ^ sh) (hsh : sh ≤ c.aw)
+    (hacc : Wishbone.checkRegionsOverlap false rs = none) (hall : Wishbone.RegionsDecodable c.dw rs)
+    (ins : List DirIn) :
+    (c.fabric = .shared c.cfg →
+      LocalAll (Shared.machine c.cfg rd) c.cfg rd (Shared.init c.cfg rd) (fun _ => {}) (fun _ => 0) ins →
+      Guar (Shared.machine c.cfg rd) c.cfg rd true (Shared.init c.cfg rd) Fifo.empty ins) ∧
+    (c.fabric = .xbar c.cfg →
+      LocalAll (Crossbar.machine c.cfg rd) c.cfg rd (Crossbar.init c.cfg rd) (fun _ => {}) (fun _ => 0) ins →
+      Guar (Crossbar.machine c.cfg rd) c.cfg rd false (Crossbar.init c.cfg rd) Fifo.empty ins) :=
+  axl_soc_closed_route c rd hn (axl_soc_accepted_disjoint_partial c rs sh hr hdw hsh hacc hall) ins
+
 /- Full statement for the point-to-point case (FALSE): "an address reaches the slave only if it lies in the slave's
    region".  `InterconnectPointToPoint` has no decoder (b-c06's open finding C06-p2p-partial-region-origin0; the statement
    in `do_finalize` is shared by all three bus standards). -/
@@ -609,6 +680,16 @@ example :
 /-- Non-vacuity of `axl_soc_fabric_decoded` / `axl_soc_closed_route`: 2 masters, regions at 0x1000_0000 and 0x4000_0000. -/
 def socS : SocAxi := { n := 2, regions := [(0x10000000, 0x1000), (0x40000000, 0x10000)], kind := .crossbar, full := true,
                        timeout := some 1000000, dw := 32, aw := 32 }
+
+/-- Non-vacuity of `axl_soc_accepted_disjoint_partial`: `socS`'s two regions are accepted and decodable. -/
+example :
+    let rs : List Soc.Region := [{ origin := 0x10000000, size := 0x1000 }, { origin := 0x40000000, size := 0x10000 }]
+    socS.regions = Wishbone.pairsOf rs ∧ socS.dw / 8 = 2 ^ 2 ∧ Wishbone.checkRegionsOverlap false rs = none ∧
+    Wishbone.RegionsDecodable socS.dw rs := by
+  refine ⟨rfl, by decide, by decide, ?_⟩
+  intro r hr
+  simp only [List.mem_cons, List.not_mem_nil, or_false] at hr
+  rcases hr with rfl | rfl <;> decide
 
 example : socS.fabricName = "xbar" ∧ routes socS.cfg 0 0x10000ffc = true ∧ routes socS.cfg 1 0x10000ffc = false ∧
     routes socS.cfg 1 0x4000fff0 = true ∧ routes socS.cfg 0 0x20000000 = false ∧ routes socS.cfg 1 0x20000000 = false := by
@@ -875,6 +956,23 @@ example :
 example :
     ¬ LocalAll (Shared.machine cfg22 false) cfg22 false (Shared.init cfg22 false) (fun _ => {}) (fun _ => 0) [xc, xd] ∧
     LocalAll (Shared.machine cfg22 false) cfg22 false (Shared.init cfg22 false) (fun _ => {}) (fun _ => 0) [xc] := by
+  decide
+
+/-- Non-vacuity: an AXI4 read burst of two beats on the 2×2 fabric — the first beat (no `last`) leaves both counters at
+    1 and the entry on the scoreboard, the second (`last`) releases; both beats reach master 0. -/
+example :
+    let cF : Cfg := { cfg22 with full := true }
+    let M := Shared.machine cF true
+    let b1 : DirIn := { ms := fun i => if i = 0 then { rReady := true } else {},
+                        ss := fun j => if j = 1 then { rValid := true, rLast := false, rPay := 5 } else {} }
+    let b2 : DirIn := { ms := fun i => if i = 0 then { rReady := true } else {},
+                        ss := fun j => if j = 1 then { rValid := true, rLast := true, rPay := 6 } else {} }
+    let r1 := runSB M cF true (Shared.init cF true) Fifo.empty [xa]
+    let r2 := runSB M cF true (Shared.init cF true) Fifo.empty [xa, b1]
+    let r3 := runSB M cF true (Shared.init cF true) Fifo.empty [xa, b1, b2]
+    r1.1.arb.cnt = 1 ∧ r1.2 1 = [0] ∧ mRsp b1 (M.out r1.1 b1) 0 = true ∧
+    r2.1.arb.cnt = 1 ∧ r2.1.dec.cnt = 1 ∧ r2.2 1 = [0] ∧ mRsp b2 (M.out r2.1 b2) 0 = true ∧
+    r3.1.arb.cnt = 0 ∧ r3.1.dec.cnt = 0 ∧ r3.2 1 = [] := by
   decide
 
 end Litex.C08
